@@ -277,6 +277,10 @@ class SupvisorsInstanceStatus:
         self.logger.debug(f'SupvisorsInstanceStatus.update_tick: update Supvisors={self.usage_identifier}' 
                           f' with sequence_counter={remote_sequence_counter} remote_time={remote_time}'
                           f' remote_mtime={remote_mtime} local_sequence_counter={local_sequence_counter}')
+        if self.state == SupvisorsInstanceStates.STOPPED:
+            # a new life cycle starts with this TICK: the counter of the previous one is obsolete
+            # (the restart has already been dealt with, so it must not be detected as a stealth restart)
+            self.times.remote_sequence_counter = 0
         self.times.update(remote_sequence_counter, remote_mtime, remote_time, local_sequence_counter)
         # update all process times
         for process in self.processes.values():
